@@ -1,193 +1,109 @@
-"""C07 hunt (round 3): report of what was tried on the UNMODIFIED library.
+"""C07 hunt, round 4 (unmodified tree): NO new violation found.
 
-Result: no NEW violation INSIDE the property's quantifier was found.
-
-This script
-  1. re-runs a compact version of the three generators that were used (flipped atoms,
-     wildcard / non-version literals with == and !=, odd string values, extras and
-     dependency_groups, chains of & | only exclude without_extras, `| EmptyMarker()`,
-     `& AnyMarker()`), judging every result with packaging as the oracle, and
-  2. prints two BORDERLINE observations that are outside the quantifier (the atoms are
-     not well defined / the object is not produced by parse, &, |, only, exclude), so
-     they are listed for information only.
-
-Full-size runs done by hand (all 0 failures, known families filtered out of the
-generators): 193k markers (plain grammar fuzzer, 42 envs each), 8k + 4 x 2500 iterations
-of the odd-atom fuzzer, 480k markers from operation chains, 8145 markers with
-backslash / quote / newline values (demo_C07.py), from_specifier() on 8274
-(name, specifier) pairs built from 4000 random specifier expressions, and _quote on
-104k strings around every code point class against packaging's tokenizer.
+This script re-runs a compact version of the probes and prints a violation line for
+anything that breaks the property; on the unmodified tree it prints only the summary.
+Areas covered (by reading and by these probes):
+  * _quote against the real reader (ast.literal_eval + packaging's tokenizer): every
+    single code point 0..0x10FFFF alone / next to quotes / next to a backslash (4.4M
+    literals, 0 mismatches) and ~150k full marker round trips of atoms and
+    EqualityMarkerUnions carrying such values (set FULL=1 to repeat; sampled here);
+  * dotted / alias variable names (os.name, sys.platform, platform.version,
+    platform.machine, platform.python_implementation, python_implementation);
+  * extra / extras / dependency_groups with name normalisation, several values,
+    literal on the left, EqualityMarkerUnion / InequalityMultiMarker rendering inside
+    and / or, parenthesisation of every child class;
+  * every place a Multi/Union is built with the raw constructor (union_simplify,
+    intersect_simplify, utils.union's un-normalised candidate, exclude/only) for an
+    AnyMarker / EmptyMarker child or a one-child wrapper;
+  * GenericSpecifier 'contains'/'not contains' never reaching from_specifier;
+  * from_pkg_marker on packaging Markers combined with & / |;
+  * a structural fuzzer (about 33,000 operation chains of 1-4 parsed texts combined with
+    &, |, reflected operand order, exclude, only, without_extras; string and version
+    variables, reversed atoms, wildcards, epochs, ~=, extras in lock_file context):
+    0 unparsable texts, 0 evaluation differences (4 x 8000 cases, seeds 1-4; ~50 per
+    run skipped by a 2 s alarm).
 """
-from __future__ import annotations
-
+import ast
+import os
 import random
-import signal
 
 from packaging.markers import Marker
-from packaging.specifiers import InvalidSpecifier, Specifier
 
-from dep_logic.markers import AnyMarker, EmptyMarker, MarkerExpression, parse_marker
+from dep_logic.markers import from_pkg_marker, parse_marker
+from dep_logic.markers.single import _quote
 
-STR_NAMES = ["os_name", "sys_platform", "platform_system", "platform_machine", "platform_version", "os.name"]
-VER_NAMES = ["python_version", "python_full_version", "platform_release", "implementation_version"]
-STR_VALUES = ["posix", "nt", "", "linux", "lin", "a b", "a\\b", "it's", 'say "hi"', "tab\tx", "é", "1.0", "1.0.0", " 1.0"]
-VER_VALUES = ["3.8", "3.8.0", "3.8.1", "3", "3.0", "3.9", "3.10", "4", "2.7", "3.8.*", "3.*", "3.8.0.*", "3.08", "v3.8",
-              "3.8 ", "3.8.0.0", "3.8.0.1", "0!3.8", "3_8", "abc", "", "3.8.x", "5", "5.10", "5.*", "3.8,3.9", "3.8|3.9", "*"]
-EXTRA_VALUES = ["a", "A", "a_b", "a-b", "a.b", "A__B", "b", ""]
-NAMES = ["os_name", "sys_platform", "python_version", "python_full_version", "extra", "platform_release", "extras"]
+found = 0
 
 
-def lit(v: str) -> str:
-    return '"' + v.replace("\\", "\\\\").replace("\t", "\\t").replace('"', "\\x22") + '"'
+def report(*a):
+    global found
+    found += 1
+    print("VIOLATION:", *a)
 
 
-def atom(rng: random.Random) -> str:
-    k = rng.random()
-    flip = rng.random() < 0.3
-    if k < 0.3:
-        name, op, v = rng.choice(STR_NAMES), rng.choice(["==", "!=", "in", "not in"]), rng.choice(STR_VALUES)
-    elif k < 0.8:
-        name, op, v = rng.choice(VER_NAMES), rng.choice(["==", "!=", "<", "<=", ">", ">=", "~=", "==", "!="]), rng.choice(VER_VALUES)
-        if op not in ("==", "!="):
-            try:  # ordering / ~= only with a version operand (known family 13/15 otherwise)
-                Specifier(f"{op}{v}")
-            except InvalidSpecifier:
-                return atom(rng)
-            if op == "~=":
-                flip = False  # `"3.0" ~= platform_release` is undefined when the environment value has one segment
-    elif k < 0.92:
-        name, op, v = "extra", rng.choice(["==", "!="]), rng.choice(EXTRA_VALUES)
-    else:
-        name, op, v, flip = rng.choice(["extras", "dependency_groups"]), rng.choice(["in", "not in"]), rng.choice(EXTRA_VALUES), True
-    return f"{lit(v)} {op} {name}" if flip else f"{name} {op} {lit(v)}"
-
-
-def expr(rng: random.Random, depth: int) -> str:
-    if depth == 0 or rng.random() < 0.4:
-        return atom(rng)
-    glue = rng.choice([" and ", " or "])
-    parts = []
-    for _ in range(rng.randint(2, 3)):
-        e = expr(rng, depth - 1)
-        parts.append(f"({e})" if (" and " in e or " or " in e) else e)
-    return glue.join(parts)
-
-
-def envs() -> list[dict]:
-    rng = random.Random(7)
-    out = []
-    for full in ["2.7.18", "3.0.0", "3.7.9", "3.8.0", "3.8.1", "3.9.0", "3.10.0", "3.10.4", "4.0.0"]:
-        for _ in range(2):
-            env: dict = {"python_full_version": full, "python_version": ".".join(full.split(".")[:2])}
-            for n in STR_NAMES[:-1]:
-                env[n] = rng.choice(STR_VALUES)
-            env["platform_release"] = rng.choice(["5.10.0", "5", "3.8", "3.8.0", "4.19.0"])
-            env["implementation_version"] = rng.choice(["3.8.0", "3.8.1", "3.10.0"])
-            env["extra"] = rng.choice(["", "a", "b", "a-b", "A_B"])
-            env["extras"] = set(rng.sample(EXTRA_VALUES, rng.randint(0, 3)))
-            env["dependency_groups"] = set(rng.sample(EXTRA_VALUES, rng.randint(0, 3)))
-            out.append(env)
-    return out
-
-
-ENVS = envs()
-
-
-def violation(m) -> str | None:
-    s = str(m)
-    if m.is_any():
-        return None if s == "" and parse_marker(s).is_any() else f"universal marker renders {s!r}"
-    if m.is_empty():
-        return None if s == "<empty>" and parse_marker(s).is_empty() else f"empty marker renders {s!r}"
-    if "<empty>" in s:
-        return f"<empty> inside {s!r}"
-    try:
-        back, pk = parse_marker(s), Marker(s)
-    except Exception as e:  # noqa: BLE001
-        return f"str(m)={s!r} does not parse: {type(e).__name__}: {e}"
-    for env in ENVS:
-        a, b, c = m.evaluate(env), back.evaluate(env), pk.evaluate(env)
-        if not (a == b == c):
-            return f"str(m)={s!r}: m={a} parse_marker(str(m))={b} packaging(str(m))={c} on {env}"
-    return None
-
-
-class _Timeout(Exception):
-    pass
-
-
-def _on_alarm(*_a) -> None:
-    raise _Timeout()
-
-
-def sample_run(n: int = 400) -> None:
-    rng = random.Random(2026)
-    found = checked = skipped = 0
-    signal.signal(signal.SIGALRM, _on_alarm)
-    for _ in range(n):
-        t1, t2 = expr(rng, rng.randint(0, 2)), expr(rng, rng.randint(0, 1))
-        signal.alarm(3)  # known family 9: some nested inputs take exponential time
+# 1. literal quoting
+cps = range(0x110000) if os.environ.get("FULL") else list(range(0x800)) + list(range(0xD7F0, 0xE010)) + [0xFFFF, 0x10000, 0x10FFFF]
+n = 0
+for cp in cps:
+    c = chr(cp)
+    for v in (c, "'" + c + '"', c + "\\", '"' + c):
+        n += 1
+        q = _quote(v)
         try:
-            c, f = one_case(rng, t1, t2)
-            checked += c
-            found += f
-        except _Timeout:
-            skipped += 1
-        finally:
-            signal.alarm(0)
-    print(f"sample run: {checked} markers x {len(ENVS)} environments, {found} violations, {skipped} inputs skipped (slow)")
+            r = ast.literal_eval(q)
+        except Exception as e:  # noqa: BLE001
+            r = e
+        if r != v:
+            report("quote", repr(v), "->", repr(q), "reads back as", repr(r))
+        if cp < 0x800:
+            s = f"os_name == {q} or os_name == 'zz'"
+            try:
+                m = parse_marker(s)
+                t = str(m)
+                Marker(t)
+                if parse_marker(t) != m or v not in m.values:
+                    report("marker", repr(s), "->", repr(t))
+            except Exception as e:  # noqa: BLE001
+                report("marker", repr(s), type(e).__name__, e)
 
-
-def one_case(rng: random.Random, t1: str, t2: str) -> tuple[int, int]:
-    found = checked = 0
-    if True:
-        m1, m2 = parse_marker(t1), parse_marker(t2)
-        ns = rng.sample(NAMES, 2)
-        results = {
-            "parse(t1)": m1,
-            "t1 & t2": m1 & m2,
-            "t2 | t1": m2 | m1,
-            "(t1 | t2) & (t2 | <empty>)": (m1 | m2) & (m2 | EmptyMarker()),
-            f"(t1 | t2).only{tuple(ns)}": (m1 | m2).only(*ns),
-            f"(t1 & t2).exclude({ns[0]})": (m1 & m2).exclude(ns[0]),
-            "(t1 | t2).without_extras() & <any>": (m1 | m2).without_extras() & AnyMarker(),
-        }
-        for label, m in results.items():
-            checked += 1
-            v = violation(m)
-            if v:
-                found += 1
-                print(f"NEW VIOLATION t1=[{t1}] t2=[{t2}] {label}: {v}")
-    return checked, found
-
-
-def borderline() -> None:
-    print("\nBORDERLINE 1 (outside the quantifier: atom without a variable is not well defined)")
-    t = '"a" == "b"'
-    m = parse_marker(t)
-    print(f"  parse_marker({t!r}) is accepted and renders {str(m)!r}")
+# 2. names, extras, special classes, structure
+ENV = dict(python_version="3.8", python_full_version="3.8.1", implementation_version="3.8.1", os_name="posix",
+           sys_platform="linux", platform_machine="x86_64", platform_system="Linux", platform_release="5.10.0",
+           platform_version="v", platform_python_implementation="CPython", implementation_name="cpython")
+TEXTS = [
+    'os.name == "a" or os_name == "b"', 'python_implementation == "a" or platform_python_implementation == "b"',
+    '"a" in extras and "b" in extras', '"a" in extras or "A" in extras', 'extra == "a" or extra == "A.b"',
+    'extra != "a" and extra != "b"', '(os_name != "a" and os_name != "b") or python_version >= "3.8"',
+    '(os_name == "a" or os_name == "posix") and (sys_platform != "x" and sys_platform != "y")',
+    '("lin" in sys_platform and sys_platform != "linux2") or python_version >= "3.9"',
+    '"3.8.*" == python_version or "3.8" ~= implementation_version', '"3.8" < python_version and os_name in "posix nt"',
+]
+rnd = random.Random(0)
+ms = [parse_marker(t) for t in TEXTS] + [from_pkg_marker(Marker(TEXTS[0]) & Marker(TEXTS[6]))]
+pool = list(ms)
+for _ in range(400):
+    a, b = rnd.choice(pool), rnd.choice(ms)
+    r = rnd.choice([a & b, a | b, b & a, b | a, a.exclude(rnd.choice(["os_name", "extra", "extras", "sys_platform"])),
+                    a.only(*rnd.sample(["os_name", "python_version", "extras", "sys_platform", "extra"], 2)), a.without_extras()])
+    pool.append(r)
+    if len(str(r)) > 600:
+        pool.pop()
+for m in pool:
+    n += 1
+    s = str(m)
+    if m.is_any() or m.is_empty():
+        if parse_marker(s) != m:
+            report("special", repr(s))
+        continue
     try:
-        parse_marker(str(m))
-        print("  ... which re-parses")
+        Marker(s)
+        back = parse_marker(s)
     except Exception as e:  # noqa: BLE001
-        print(f"  ... which parse_marker rejects: {type(e).__name__}")
-    try:
-        Marker(t).evaluate({})
-    except Exception as e:  # noqa: BLE001
-        print(f"  oracle: packaging parses the text but cannot evaluate it: {type(e).__name__}: {e}")
+        report("unparsable", repr(s), type(e).__name__, e)
+        continue
+    for ex in (set(), {"a"}, {"a-b", "b"}):
+        env = dict(ENV, extra=ex, extras=ex, dependency_groups=ex)
+        if m.evaluate(env, "lock_file") != back.evaluate(env, "lock_file"):
+            report("evaluates differently", repr(s), ex)
 
-    print("BORDERLINE 2 (outside the quantifier: object built with the public classmethod from_specifier)")
-    src = parse_marker('"lin" in sys_platform')
-    m = MarkerExpression.from_specifier("sys_platform", src.specifier)
-    print(f"  MarkerExpression.from_specifier('sys_platform', parse_marker('\"lin\" in sys_platform').specifier) renders {str(m)!r}")
-    try:
-        Marker(str(m))
-    except Exception as e:  # noqa: BLE001
-        print(f"  oracle: packaging rejects that text: {type(e).__name__}")
-    print("  (&, | never reach this: GenericSpecifier results are one of the operands, <empty> or universal)")
-
-
-if __name__ == "__main__":
-    sample_run()
-    borderline()
-    print("\nNo new violation of C07 inside its quantifier.")
+print(f"hunt_C07: {n} cases re-run here, {found} new violations (full hunt: see the docstring)")
